@@ -7,9 +7,9 @@ import c01, c03
 
 PID = "C02"
 LEVEL = "proof"
-COQ_TARGETS = ["Props/C02.vo", "Props/C02_identities.vo", "Props/C02_ratio.vo", "Props/C02_fp.vo"]
-PROPS_FILES = ["C02", "C02_identities", "C02_ratio", "C02_fp"]
-THEOREMS = ["C02_fingerprints", "C02_binv_recurrence", "C02_binv_sampler_event", "C02_binomial_flip", "C02_geometric_split", "C02_std_geometric_form",
+COQ_TARGETS = ["Props/C02.vo", "Props/C02_identities.vo", "Props/C02_ratio.vo", "Props/C02_fp.vo", "Props/C02_model.vo"]
+PROPS_FILES = ["C02", "C02_identities", "C02_ratio", "C02_fp", "C02_model"]
+THEOREMS = ["C02_model_binv_event", "C02_model_binv_cell_pmf", "C02_model_knuth_event", "C02_model_hin_event", "C02_fingerprints", "C02_binv_recurrence", "C02_binv_sampler_event", "C02_binomial_flip", "C02_geometric_split", "C02_std_geometric_form",
             "C02_hyper_reflect_bijection", "C02_hyper_reflect_pmf", "C02_hin_recurrence", "C02_zeta_identity", "C02_zeta_accept_le_1",
             "C02_zipf_accept_mass", "C02_knuth_form", "C02_fingerprints",
             "C02_btpe_exact_ratio", "C02_btpe_accept_iff", "C02_btpe_f51_exact_ratio", "C02_h2pe_exact_ratio", "C02_h2pe_accept_iff",
@@ -21,6 +21,10 @@ TRUSTED_BASE = [
     "integer tie rule, HIN recurrence and start values, Zeta proposal mass x acceptance = C x^-s with acceptance <= 1, Zipf hat/inverse/acceptance "
     "mass, Knuth's product form; BTPE step 5.1 and H2PE step 4.1 compute the exact pmf ratio pmf(y)/pmf(m) and their acceptance tests are "
     "v*pmf(m) <= pmf(y) (Props/C02_ratio.v, both for the real-number loops and for the terms btpe_f51 / h2pe_f41 of the executable model)",
+    "Props/C02_model.v (Proofs/PmfModelEvents.v): the inversion events are proved ON THE EXECUTABLE MODELS themselves (the trees run against the "
+    "crate), not only for the abstract real-number loops: BINV returns Some x exactly when u0 lies in the x-th cell of the binomial cdf (None = "
+    "restart only beyond 111 cells), HIN returns z exactly on the z-th cell of the hypergeometric cdf, Knuth returns k after exactly k+1 words with "
+    "the first k partial products above exp(-lambda) and the next one not",
     "NOT proved: that the BTPE / H2PE / PD hats dominate their targets and their Stirling squeezes (the papers' lemmas); for those parts the "
     "samplers are tied to the code pathwise only",
     "hand models coq/Model/Discrete.v of all seven samplers incl. constructors (BINV, BTPE regions 1-4 and 5.0-5.3, Knuth, Ahrens-Dieter PD, "
@@ -115,9 +119,15 @@ def correspond(ctx):
             v = int(x)
         else:
             v = int(v)
-        coq_cases.append("icase %s %s %s %d %d" % (S.coq_ty(ty) if ty != "u64" else "F64", model, zlist(words[:max(cnt + 6, 10)]), v, cnt))
+        coq_cases.append("icaseS %s %s %s %d %d" % (S.coq_ty(ty) if ty != "u64" else "F64", model, zlist(words[:max(cnt + 6, 10)]), v, cnt))
         idx.append(n)
-    codes = c01.coq_eval_codes("C02", HEADER, coq_cases, shard=120)
+    raw = c01.coq_eval_codes("C02", HEADER, coq_cases, shard=120)
+    codes = [r % 4 for r in raw]        # icaseS = verdict + 4 * signature of the decisions on the reproducing path
+    paths = {}
+    for n, r in zip(idx, raw):
+        if r % 4 == 0:
+            paths.setdefault("%s/%s" % (cases[n][0], cases[n][1]), set()).add(r // 4)
+    model_paths = {k: len(v) for k, v in sorted(paths.items())}
     per, mismatches = {}, []
     for n, code in zip(idx, codes):
         fam, ty = cases[n][0], cases[n][1]
@@ -145,7 +155,7 @@ def correspond(ctx):
                 % (8 if tier == "quick" else 30, 9 if tier == "quick" else 40, " (one third at quick tier)" if tier == "quick" else ""),
         "samples": [lines[0][:200], lines[len(lines) // 2][:200], lines[-1][:200]],
         "mismatches": mismatches, "oracle_failures": oracle_failures,
-        "extra": {"per_family": per, "case_stats": stats, "parameter_points": len(pts)},
+        "extra": {"per_family": per, "case_stats": stats, "parameter_points": len(pts), "distinct_model_paths": model_paths},
     }
 
 
